@@ -42,7 +42,7 @@ def signature(glue, name):
     pools = {"list Z": list("abcde"), "Z": list("klmn"), "bool": list("fgh")}
     out = []
     for x, t in ps:
-        if x in ("dbg", "w"):
+        if x in ("dbg", "w") or (x == "n" and t == "nat"):
             out.append(x)
         elif t in pools:
             out.append(pools[t].pop(0))
@@ -94,7 +94,7 @@ def main():
                "   build mode and operand (no well-formedness hypothesis): an edit of the source that changes what one of these\n"
                "   functions computes or delegates to breaks this theorem ---- *)\n"
                "From Bnum.Model Require Import Digit Core Shift AddSub Mul Div Bits Pow.\n"
-               "From Bnum.Model Require Ops.\nFrom Bnum.Generated Require Import Glue.\nFrom Bnum.Proofs Require Import GlueTieCommon GlueTie%s.\n"
+               "From Bnum.Model Require Ops NumTraits.\nFrom Bnum.Generated Require Import Glue.\nFrom Bnum.Proofs Require Import GlueTieCommon GlueTie%s.\n"
                "Theorem %s :\n%s.\nProof. exact glue_%s_matches_model. Qed.\nPrint Assumptions %s.\n" % (what, prop, thm, m.group(1), fam, thm))
         open(pp, "w").write(old + new)
 
